@@ -117,7 +117,8 @@ nng_stream_recv(nng_stream *s, nni_aio *aio)
 void
 nng_stream_close(nng_stream *s)
 {
-	(void) s;
+	if (s == NULL)
+		return; /* as core/stream.c */
 	s_closed++;
 }
 void
@@ -221,7 +222,25 @@ harness(void)
 	nni_mtx_init(&ep.mtx);
 	NNI_LIST_INIT(&ep.waitpipes, TP, node);
 	NNI_LIST_INIT(&ep.negopipes, TP, node);
+	{
+		static const TP tp_zero;
+		tp = tp_zero; /* the core hands the transport zeroed memory */
+	}
 	F(pipe_init)(&tp, &np);
+#if MODE == 8
+	/* C20: core/pipe.c pipe_create could not finish the pipe (its id, or the protocol's per-pipe state, could not be
+	 * allocated) after the transport's p_init had run: it closes the pipe, and the reaper runs p_close, p_stop and -
+	 * when the last reference goes - p_fini on a transport pipe that was never attached to an endpoint or a stream */
+	F(pipe_close)(&tp);
+	kquiesce();
+	F(pipe_stop)(&tp);
+	F(pipe_fini)(&tp);
+	SCHECK(s_closed == 0 && s_sends == 0 && s_recvs == 0, "C20: a pipe that never got a connection touches no stream");
+	SCHECK(env_msg_live == 0 && env_locks_held == 0, "C20: nothing leaked, no lock held");
+	WITNESS("unfinished pipe reaped");
+	WITNESS("end");
+	return;
+#endif
 	tp.ep   = &ep;
 	tp.conn = (nng_stream *) &s_addr; /* opaque */
 #if MODE == 1
